@@ -440,6 +440,14 @@ func (s *scope) createInstance(descriptor *Descriptor) (any, error) {
 		}
 	}
 
+	// The analysis is cached per code pointer, which closures created by one function literal share:
+	// invoke the constructor value that was registered, not the one that was analyzed first
+	if info.IsFunc {
+		bound := *info
+		bound.Value = descriptor.Constructor
+		info = &bound
+	}
+
 	// Get cached invoker (reduces allocations)
 	invoker := s.rootProvider.analyzer.GetInvoker()
 
